@@ -241,7 +241,7 @@ LEVEL_TEXT = {
  "C14": "Proof per dimension instance (state dimension <= 4, order limits symbolic): documented sizes, index of every listed state, in-box vectors map to the row holding them; closure of transition for useful life <= 5, lead time <= 4.",
  "C15": "Proof, complete per dimension instance (useful life 1..5 x lead time 1..4 x issuing policy), all quantities symbolic: transition == independent scalar model, conservation, reward coefficient-wise.",
  "C16": "Plumbing proved with distribution functions uninterpreted (which distribution, parameters, bins, ordering, censoring, product form, initial values); numerics of special functions trusted; Hendrix: four cases + table contents (pu = Poisson demand thinned by binomial substitution, pz = convolution with Poisson demand for A) proved for the configured parameters; Mirjalili event space = documented event set. The comparison against scipy brute force stays as bounded second line.",
- "C17": "Proof with two loop invariants: P entries = event mass per successor, R = expected reward, ValueError exactly when some row deviates by more than the tolerance, accepted rows renormalised to one; equality of the matrix backup in Lean. The clause 'message names the offending pair' is bounded only.",
+ "C17": "Proof with two loop invariants: P entries = event mass per successor, R = expected reward, ValueError exactly when some row deviates by more than the tolerance, accepted rows renormalised to one, the error message names a pair attaining the largest deviation (argmax over the flattened array linked to the pair by instantiated lemma calls); equality of the matrix backup in Lean.",
  "C18": "Proof for all n_states, max_batch_size, device counts: attribute consistency, layout, un-batching for ranks 3-5.",
  "C19": "Proof per dimension count 1..4 with arbitrary integer bounds: enumeration, inverse index, clipping to the nearest box vector.",
  "C20": "Proof: validators in both directions for all nine config classes, whole constructors of the five solvers reach normal return for every accepted parameter set (gamma = 0 excepted: known finding), format spec valid, verbosity mapping, config capture on both routes. Route equivalence and the float64 clause bounded only.",
